@@ -246,7 +246,19 @@ class Unit:
                 self.newtype_reps = getattr(self, "newtype_reps", []) + [t1]
                 return t1
             if n in ("Mutex", "Arc", "RefCell", "MutexGuard", "Rc") and len(t[2]) == 1:
-                return self.resolve(t[2][0], impl)     # trusted: locking is the identity on the protected value
+                r_ = self.resolve(t[2][0], impl)     # trusted: locking is the identity on the protected value
+                if n == "Mutex" and r_[0] == "opaque":
+                    # (round 9) remembered so that `.lock()` on a place declared `Mutex<Opaque>` is the identity as well
+                    self.mutex_opaques = getattr(self, "mutex_opaques", set()) | {r_[1]}
+                return r_
+            if n == "Weak" and len(t[2]) == 1:
+                # (round 9) `Weak<T>`: the value if it is still alive -- `Option T`; `.upgrade()` is the identity on it, so
+                # `.upgrade().unwrap()` panics exactly when the target is gone
+                return ("opt", self.resolve(t[2][0], impl))
+            if n == "Into" and len(t[2]) == 1:
+                # (round 9) `impl Into<T>` parameter: the only thing the body can do with it is `.into()`; the conversion
+                # happens at the caller's type, the parameter is modelled as the `T` it is converted to
+                return self.resolve(t[2][0], impl)
             if n in ("BTreeMap", "OrderedMap", "Map", "HashMap", "UnorderedMap") and len(t[2]) >= 2:
                 k = self.resolve(t[2][0], impl)
                 # "map": ordered by key (BTreeMap); "umap": no defined iteration order (HashMap)
@@ -563,7 +575,8 @@ class FnTranslator:
             elif self.impl not in u.fi.structs:
                 # default method of a trait: `self` is a value of an opaque type; the required methods of the
                 # trait it calls become explicit function parameters (externals)
-                if f["self"] != "ref": raise RsError("&mut self in a trait default method")
+                # (round 9) `&mut self`: the default method returns the new `self`; required `&mut self` methods of the
+                # trait are externals `SelfT → args → SelfT × R` (see decl_external)
                 self.trait_self = True
                 env["self"] = ("opaque", "SelfT")
                 params.append(("self", ("opaque", "SelfT")))
@@ -579,6 +592,8 @@ class FnTranslator:
             params.append((pat[1], t))
             if t[0] == "struct": u.used_fields.setdefault(t[1], [])   # emitted even if no field is read
             if refmut: self.mut_params.append(pat[1])
+            if ty[0] == "named" and ty[1] == "Into" and len(ty[2]) == 1:
+                self.into_params = getattr(self, "into_params", set()) | {pat[1]}     # `impl Into<T>`: see Unit.resolve
         self.params_pre = params
         for mp in self.mut_params:
             # (round 9) a `&mut` parameter of an opaque type is returned like every other `&mut` parameter; the only things
@@ -682,7 +697,7 @@ class FnTranslator:
 
     def out_parts(self):
         parts = []
-        if self.selfk == "mut": parts.append(("self", ("struct", self.impl)))
+        if self.selfk == "mut": parts.append(("self", ("opaque", "SelfT") if getattr(self, "trait_self", False) else ("struct", self.impl)))
         for mp in self.mut_params:
             parts.append((mp, dict(self.params)[mp]))
         return parts
@@ -1916,6 +1931,10 @@ class FnTranslator:
             base, bt = self.expr(e[1], env, pre, None)
             if bt[0] != "tuple" and e[2] == 0 and bt in getattr(self.u, "newtype_reps", []):
                 return base, bt       # `.0` of a newtype listed under tuple_structs
+            if bt[0] in ("opaque", "struct") and "%s.%d" % (bt[1], e[2]) in self.u.externals:
+                # (round 9) declared projection of a foreign / opaque tuple struct: `"PubKey.0": {"params": [], "ret": "Vec<u8>"}`
+                r_ = self.call_external("%s.%d" % (bt[1], e[2]), [], env, pre, recv=(base, bt))
+                return r_[0], r_[1]
             if bt[0] != "tuple": raise RsError("tuple field on a non-tuple")
             n, i = len(bt[1]), e[2]
             if i >= n: raise RsError("tuple index out of range")
@@ -2428,12 +2447,14 @@ class FnTranslator:
         kind = "tried" if info.is_result else "val"
         return (val if val is not None else "()"), info.val_ty, kind
 
-    def decl_external(self, impl, m, args, env, pre):
+    def decl_external(self, impl, m, args, env, pre, wr=False):
         """a required (body-less) method of the trait whose default method is being translated: explicit parameter"""
         d = self.u.fi.function(impl, m)
         pts = [self.u.resolve(ty, impl) for _, ty, _, refmut in d["params"]]
-        if any(refmut for _, _, _, refmut in d["params"]) or d["self"] != "ref":
-            raise RsError("required trait method %s with &mut receiver/parameters" % m)
+        if any(refmut for _, _, _, refmut in d["params"]) or d["self"] not in ("ref", "mut"):
+            raise RsError("required trait method %s with &mut parameters / by-value receiver" % m)
+        upd = d["self"] == "mut"
+        if upd and self.selfk != "mut": raise RsError("required &mut self method %s called from a &self default method" % m)
         rt = self.u.resolve(d["ret"], impl)
         if len(pts) != len(args): raise RsError("arity of trait method %s" % m)
         terms = []
@@ -2442,6 +2463,18 @@ class FnTranslator:
             self.check_ty(t, pt, "argument of trait method %s" % m)
             terms.append(term if " " not in term or term.startswith("(") else "(" + term + ")")
         res = rt[1] if rt[0] == "result" else rt
+        if upd:
+            # required `&mut self` method: `SelfT → args → SelfT × R` (`SelfT` for `R = ()`), the new `self` is rebound
+            outl = "SelfT" if res == UNIT else "(SelfT × %s)" % self.u.lt(res, False)
+            lty = " → ".join(["SelfT"] + [self.u.lt(t, False) for t in pts] + [("Rs.M " + outl) if rt[0] == "result" else outl])
+            self.add_ext("ext_" + m, lty)
+            call = ("ext_%s self %s" % (m, " ".join(terms))).rstrip()
+            if rt[0] == "result" and not (wr and self.is_result):
+                raise RsError("Result of the state-updating required method %s used other than by `?` or in tail position" % m)
+            r_ = None if res == UNIT else self.fresh("r")
+            patt = "self" if r_ is None else "(self, %s)" % r_
+            pre.append(("bind", patt, MCall(call)) if rt[0] == "result" else ("let", patt, call))
+            return (r_ or "()"), res, ("tried" if rt[0] == "result" else "val")
         lty = " → ".join(["SelfT"] + [self.u.lt(t, False) for t in pts] +
                          [("Rs.M " + self.u.lt(res, False)) if rt[0] == "result" else self.u.lt(res, False)])
         self.add_ext("ext_" + m, lty)
@@ -2614,6 +2647,24 @@ class FnTranslator:
         if not terms: return ident, rt, "val"
         return "(%s %s)" % (ident, " ".join(terms)), rt, "val"
 
+    def declared_mutex(self, recv, env):
+        """is the place `recv` (a field of a structure of the unit, or a parameter) *declared* with a `Mutex<..>` type
+        (under `Arc`/`Rc`/`Box`/references)?  Only then `.lock()` on a value of opaque type is known to be the mutex's."""
+        def is_mutex(ty):
+            while ty[0] == "named" and ty[1] in ("Arc", "Rc") and len(ty[2]) == 1: ty = ty[2][0]
+            return ty[0] == "named" and ty[1] == "Mutex"
+        while recv[0] in ("paren", "ref", "deref"): recv = recv[1]
+        if recv[0] == "field":
+            try:
+                _, bt = self.expr(recv[1], env, [], None)
+            except RsError:
+                return False
+            if bt[0] != "struct": return False
+            return any(fn == recv[2] and ty is not None and is_mutex(ty) for fn, ty in self.u.fi.structs[bt[1]])
+        if recv[0] == "path" and len(recv[1]) == 1:
+            return any(pat[0] == "pvar" and pat[1] == recv[1][0] and is_mutex(ty) for pat, ty, _, _ in self.f["params"])
+        return False
+
     def call_updating(self, name, recv, args, env, pre, wr):
         """(round 9) call of a method declared `"Type.m": {"params": [..], "ret": R, "updates": true}` on a *place* of the
         opaque (or imported struct) type `Type`: the external is a function `Type → args → Type × R` (`Type` alone for
@@ -2694,7 +2745,7 @@ class FnTranslator:
             ft, fty = self.expr(recv, env, pre, None)
             return self.call_external("%s.%s" % (recv[2], m), args, env, pre, recv=(ft, fty), field_style=True)
         if recv == ("path", ["self"]) and self.trait_self and (self.impl, m) in self.u.fi.decl_only:
-            return self.decl_external(self.impl, m, args, env, pre)
+            return self.decl_external(self.impl, m, args, env, pre, wr)
         if recv[0] == "path" and len(recv[1]) == 1 and recv[1][0] not in env and recv[1][0] != "self" \
                 and self.u.const_value(recv[1][0], self.local_consts) is None:
             raise RsError("method call on unknown %s" % recv[1][0])
@@ -2772,6 +2823,9 @@ class FnTranslator:
         k = bt[0]
         if m == "lock" and not args and k not in ("opaque", "iter", "viter", "lockres"):
             return base, ("lockres", bt), "val"      # trusted: locking is the identity on the protected value
+        if m == "lock" and not args and k == "opaque" and bt[1] in getattr(self.u, "mutex_opaques", ()) \
+                and (bt[1] + ".lock") not in self.u.externals and self.declared_mutex(recv, env):
+            return base, ("lockres", bt), "val"      # (round 9) the place is declared `Mutex<Opaque>`: identity, as above
         if k == "lockres":
             if m in ("unwrap", "expect"): return base, bt[1], "val"
             raise RsError("lock result used other than by unwrap/expect")
@@ -2784,9 +2838,13 @@ class FnTranslator:
             return base, bt, "val"
         if m == "to_vec" and not args and k == "vec":
             return base, bt, "val"
+        if m == "into" and not args and recv[0] == "path" and len(recv[1]) == 1 and recv[1][0] in getattr(self, "into_params", ()):
+            return base, bt, "val"      # (round 9) parameter declared `impl Into<T>`, modelled as the `T` it converts to
         if m == "into" and not args:
             if want is not None and is_uint(want) and is_uint(bt) and UBITS[want[1]] >= UBITS[bt[1]]: return base, want, "val"
             if want is not None and want == bt: return base, bt, "val"
+            if k in ("opaque", "struct") and (bt[1] + ".into") in self.u.externals:      # (round 9) declared conversion
+                return self.call_external(bt[1] + ".into", [], env, pre, recv=(base, bt))
             raise RsError(".into() without a known widening target")
         if k == "viter":
             # values/keys/entries of a collection in an order the model does not know
@@ -2999,6 +3057,7 @@ class FnTranslator:
 
     def opt_method(self, base, bt, m, args, env, pre, want):
         el = bt[1]
+        if m == "upgrade" and not args: return base, bt, "val"      # `Weak<T>` is modelled as `Option T` (see resolve)
         if m == "is_some": return "%s.isSome" % base, BOOL, "val"
         if m == "is_none": return "%s.isNone" % base, BOOL, "val"
         if m in ("unwrap", "expect"):
